@@ -45,7 +45,6 @@ func (error *Error) MarshalJSON() ([]byte, error) {
 }
 
 func (error *Error) send(w http.ResponseWriter) {
-	vh("prove.error", error.StatusCode, error.Code)
 	w.WriteHeader(error.StatusCode)
 	jsonBytes, err := error.MarshalJSON()
 	if err != nil {
@@ -130,6 +129,7 @@ func (handler proveHandler) ServeHTTP(w http.ResponseWriter, r *http.Request) {
 	vh("prove.read", r)
 	if err != nil {
 		malformedBodyError(err).send(w)
+		vh("prove.respond", r, http.StatusBadRequest)
 		return
 	}
 
@@ -140,6 +140,7 @@ func (handler proveHandler) ServeHTTP(w http.ResponseWriter, r *http.Request) {
 		err = json.Unmarshal(buf, &params)
 		if err != nil {
 			malformedBodyError(err).send(w)
+			vh("prove.respond", r, http.StatusBadRequest)
 			return
 		}
 
@@ -152,6 +153,7 @@ func (handler proveHandler) ServeHTTP(w http.ResponseWriter, r *http.Request) {
 		err = json.Unmarshal(buf, &params)
 		if err != nil {
 			malformedBodyError(err).send(w)
+			vh("prove.respond", r, http.StatusBadRequest)
 			return
 		}
 
@@ -162,12 +164,14 @@ func (handler proveHandler) ServeHTTP(w http.ResponseWriter, r *http.Request) {
 
 	if err != nil {
 		provingError(err).send(w)
+		vh("prove.respond", r, http.StatusBadRequest)
 		return
 	}
 
 	responseBytes, err := json.Marshal(&proof)
 	if err != nil {
 		unexpectedError(err).send(w)
+		vh("prove.respond", r, http.StatusInternalServerError)
 		return
 	}
 
